@@ -86,7 +86,6 @@ def drive(case, rng, profile, test_ids=True, mutate=False, max_calls=80, script=
 
     def do(op):
         out["script"].append(op)
-        drive_bystander()
         try:
             rec = run.call(op)
         except RecursionError:
@@ -97,6 +96,7 @@ def drive(case, rng, profile, test_ids=True, mutate=False, max_calls=80, script=
             return False
         out["trace"].append(rec)
         note(rec)
+        drive_bystander()      # the other order moves on after every call of this one
         return True
 
     if script is not None:
